@@ -61,6 +61,7 @@ partial def jPyExpr (j : Json) : Except String PyExpr := do
   | [.str "attr", p, a] => pure (.attr (← jStr p) (← jStr a))
   | [.str "attrdeep"] => pure .attrDeep
   | [.str "boolop", k, vals] => pure (.boolop ((← jStr k) == "and") (← (← jArr vals).mapM jPyExpr))
+  | [.str "callkw"] => pure .callKw
   | [.str "other"] => pure .other
   | _ => .error s!"bad expr {j.compress}"
 
@@ -168,7 +169,7 @@ def handleModel (j : Json) : Except String Json := do
     let fns := (m.params ++ m.vars).filterMap (fun kv => match kv.2 with | .ia f => some f | _ => none)
       ++ m.derived.map (·.2) ++ m.rxns.map (·.fn)
       ++ (m.rxns.flatMap fun r => r.stoich.filterMap fun kv => match kv.2 with | .computed f => some f | _ => none)
-    fns.any fun f => f.body.any stmtUnsupported
+    fns.any fun f => bodyUnsupported f.body
   -- original model
   let specInit := (varNames ++ m.params.map (·.1)).map fun n => (n, pyInit noInterp m m.fuel n)
   let specAt := states.map fun st =>
@@ -200,7 +201,7 @@ def handle (j : Json) : Except String Json := do
   match j.getObjVal? "fn" with
   | .ok fj => do
       let f ← jPyFn fj
-      pure (Json.mkObj [("math", exJ mathJ (sbmlifyFn f)), ("unsupported", .bool (f.body.any stmtUnsupported))])
+      pure (Json.mkObj [("math", exJ mathJ (sbmlifyFn f)), ("unsupported", .bool (bodyUnsupported f.body))])
   | .error _ =>
   match j.getObjVal? "escape" with
   | .ok ej => do
